@@ -10,6 +10,7 @@ RULE = ("kinds: fd (JacobianWrapper on random smooth f: R^n -> R^m with arbitrar
         "jac(t,y) / hook / unhook / attribute / assignment on DiffRHS with a time-dependent right-hand side: a user Jacobian is returned whenever attached "
         "(sentinel values), otherwise the derivative at the REQUESTED (t,y)); non-trivial = >=1 Jacobian compared; distinct by (kind, shapes, base order, seed / history)")
 ASSUMPTIONS = ["finite-difference accuracy threshold: 1e-8*(|J|max+1) for smooth maps, 1e4*eps*|A|*n*(1+|x|) for linear maps, 1e-7*(|J|max+1) through DiffRHS (worst observed ratios in evidence)"]
+RULE += " Strata added in the fourth seeding round: Wrappers built through rhs_prettifier (Jacobian attribute set before wrapping) and user wrappers handed to solve_ivp with and without args."
 FLOORS = {"quick": {"fd_jacobians": 200, "fd_linear": 40, "nonsquare_or_matrix_shaped": 80, "wrapper_histories": 100, "wrapper_jac_calls": 400, "unhook_then_jac": 40, "repeated_time_calls": 60, "system_histories": 25, "system_runs_with_user_jacobian": 35, "system_runs_from_a_fresh_integrator": 25, "system_direct_requests": 90, "wrapper_histories_through_the_prettifier": 40, "facade_runs_with_user_jacobian": 18},
           "thorough": {"fd_jacobians": 2000, "fd_linear": 400, "nonsquare_or_matrix_shaped": 800, "wrapper_histories": 1000, "wrapper_jac_calls": 5000, "unhook_then_jac": 400, "repeated_time_calls": 600, "system_histories": 250, "system_runs_with_user_jacobian": 500, "system_runs_from_a_fresh_integrator": 300, "system_direct_requests": 900, "wrapper_histories_through_the_prettifier": 400, "facade_runs_with_user_jacobian": 120}}
 SHAPES_X = [(1,), (2,), (3,), (5,), (2, 2), (2, 3), (3, 1)]
